@@ -15,6 +15,7 @@ def run(ctx):
                       "the process) that flag is raised on every path; every write to a holder anywhere in the job task is of a modelled form")
     ctx.rule("R07.3", "every normal exit of the job task raises the job-gone flag, the main select! cannot panic with all branches disabled, and the exit-status conversion it runs on every process end has no failing unwrap")
     ctx.rule("R07.4", "Flag::raise stores then wakes; Flag::poll registers its waker and re-checks the flag before returning Pending")
+    ctx.also("R07.4", "Flag::poll answers Ready only after loading the flag as set and never removes another task's waker")
     ctx.rule("R07.5", "no Clone future of the supervisor parks its waiter in a single-slot AtomicWaker shared between clones")
     ctx.rule("R07.7", "timer expiry re-injects the control through Timer::to_control (Stop / ContinueTryGracefulRestart with the timer's own flag) on both "
                       "expiry paths of recv, with the timer cleared (shared with R06.2 / R06.3)")
